@@ -632,7 +632,55 @@ func genStrobeHistory(g *Gen) {
 	}
 }
 
+// genMerlinBig: lengths at and above 2^16 (and, in the thorough tier, 2^24) in every place Merlin frames a length as
+// LE32 — message, challenge, witness, RNG read.  Object ids 900.. so that they never collide with a history's.
+func genMerlinBig(g *Gen) {
+	g.Emit("m.big.new", "M1", "m.new", "900", hx([]byte("big lengths")))
+	for _, n := range []int{65535, 65536, 65537, 66000 + g.Intn(60000)} {
+		g.Emit("m.big.append", "M1", "m.append", "900", hx([]byte("m")), hx(m1Data(g, n)))
+		g.Emit("m.big.extract32", "M1", "m.extract", "900", hx([]byte("c")), "32")
+	}
+	g.Emit("m.big.extract", "M1", "m.extract", "900", hx([]byte("c")), itoa(65536+g.Intn(300)))
+	g.Emit("m.big.extract32", "M1", "m.extract", "900", hx([]byte("c")), "32")
+	g.Emit("m.big.rng", "M1", "m.rng", "900", "900")
+	g.Emit("m.big.rekey", "M1", "m.rekey", "900", hx([]byte("w")), hx(m1Data(g, 65536+g.Intn(300))))
+	g.Emit("m.big.final", "M1", "m.final", "900", "900", hx(g.Bytes(32)))
+	g.Emit("m.big.read", "M1", "m.read", "900", itoa(65536+g.Intn(300)))
+	g.Emit("m.big.read32", "M1", "m.read", "900", "32")
+	if g.Tier == "thorough" {
+		g.Emit("m.big24.append", "M1", "m.append", "900", hx([]byte("m")), hx(m1Data(g, 1<<24+1+g.Intn(50))))
+		g.Emit("m.big.extract32", "M1", "m.extract", "900", hx([]byte("c")), "32")
+	}
+}
+
+// Stream M2: one whole transcript history per request (stateless, so it can be executed from many goroutines at once).
+func genM2(g *Gen) {
+	for !g.Full() {
+		f := []string{"M2", "m.script", hx(g.Bytes(m1LabelLens[g.Intn(len(m1LabelLens))]))}
+		k := 1 + g.Intn(4)
+		for i := 0; i < k; i++ {
+			f = append(f, hx(m1Data(g, 1+m1PickLen(g))))
+		}
+		f = append(f, itoa([]int{1, 32, 64, 165, 166, 167, 400}[g.Intn(7)]))
+		g.Emit("script", f...)
+	}
+}
+
+func execM2(op string, a []string) string {
+	if op != "m.script" || len(a) < 2 {
+		return "bad-op"
+	}
+	t := merlin.NewTranscript(string(unhex(a[0])))
+	for _, m := range a[1 : len(a)-1] {
+		t.AppendMessage("a", unhex(m))
+	}
+	out := make([]byte, m1Atoi(a[len(a)-1]))
+	t.ExtractBytes(out, "c")
+	return "ok " + hx(out)
+}
+
 func genM1(g *Gen) {
+	genMerlinBig(g)
 	for !g.Full() {
 		if g.Intn(10) < 3 {
 			genStrobeHistory(g)
@@ -708,5 +756,6 @@ func genS0(g *Gen) {
 func init() {
 	m1Reset()
 	register(&Stream{Name: "M1", Gen: genM1, Exec: execM1, Reset: m1Reset})
+	register(&Stream{Name: "M2", Gen: genM2, Exec: execM2})
 	register(&Stream{Name: "S0", Gen: genS0, Exec: execS0})
 }
